@@ -1,1 +1,5 @@
-
+pub mod canon;
+pub mod gen;
+pub mod model;
+pub mod refcodec;
+pub mod runner;
